@@ -266,6 +266,7 @@ def run(ctx):
             ctx.broken.pop()
     known = hd.known_kinds_for("C03")
     fails = hd.apply_oracle(ctx, cases, impl, oracle_with_meta(meta), known)
+    hd.cli_pass(ctx, cases, impl, "zip", "zip")
     hd.domain_pass(ctx, cases, impl, ("zip", "jar"), "C03_output_holds_members")
     # external validity: unzip -t on a sample of rewritten archives
     bad_unzip = []
